@@ -186,6 +186,33 @@ theorem ivset_max_value (s : IvSet) (hwf : WF s.ivs) :
     · have := hlt c hc b (List.mem_singleton.2 rfl); unfold inIv at hx; omega
     · rw [List.mem_singleton.1 hc] at hx; exact hx.2
 
+/-- `iter()` yields exactly the elements of the set, in strictly ascending order (hence each once),
+    and `count()` is their number -/
+theorem ivset_iter_count (s : IvSet) (hwf : WF s.ivs) :
+    (∀ x, x ∈ s.values ↔ Mem s.ivs x) ∧ s.values.Pairwise (· < ·) ∧ s.count = s.values.length :=
+  ⟨fun x => values_mem s.ivs x, values_sorted s.ivs hwf, count_eq_length s.ivs hwf.1⟩
+
+/-- against the PLAIN reference set (a sorted duplicate-free `List Nat`, insert/remove done element
+    by element — `IvSpec.refInsert` / `refRemove`): what `iter()` yields after a successful insert /
+    remove is literally the reference list after the same operation -/
+theorem ivset_insert_refines_plain_set (s s' : IvSet) (r : Interval) (hwf : WF s.ivs) (hr : r.lo ≤ r.hi)
+    (h : s.insert r = .ok s') : s'.values = refInsert s.values r.lo r.hi := by
+  have hwf' := (ivset_insert_wf s s' r hwf hr h).1
+  obtain ⟨h1, h2⟩ := refInsert_spec s.values r.lo r.hi (values_sorted s.ivs hwf)
+  refine sorted_ext _ _ (values_sorted s'.ivs hwf') h1 ?_
+  intro x
+  rw [h2 x, (ivset_iter_count s' hwf').1 x, (ivset_iter_count s hwf).1 x, ivset_insert_mem s s' r hwf hr h x]
+  rfl
+
+theorem ivset_remove_refines_plain_set (s s' : IvSet) (r : Interval) (hwf : WF s.ivs) (hr : r.lo ≤ r.hi)
+    (h : s.remove r = (s', .ok ())) : s'.values = refRemove s.values r.lo r.hi := by
+  obtain ⟨hwf', _, hm⟩ := ivset_remove_mem s s' r hwf hr h
+  obtain ⟨h1, h2⟩ := refRemove_spec s.values r.lo r.hi (values_sorted s.ivs hwf)
+  refine sorted_ext _ _ (values_sorted s'.ivs hwf') h1 ?_
+  intro x
+  rw [h2 x, (ivset_iter_count s' hwf').1 x, (ivset_iter_count s hwf).1 x, hm x]
+  rfl
+
 -- ---------------------------------------------------------------------------------------------
 -- union / difference (`set_operation`: one scan per interval of `other`, each scan starting at the
 -- index the previous one returned)
